@@ -168,3 +168,21 @@ Definition dyn_track_list (sin : Qc -> Qc) (m : rfmap QcF) (n : Z) (len : nat) (
   map (fun sp => (offs (fst sp), snd sp))
       (dyn_track_run sin unit (fun _ g => g) m n gen_dyn_calckick_args gen_dyn_apply steps
                      (init (K:=QcF) sin m len q tt, ps)).
+
+(** a linear RFKickMap (the members `_calcKick` reads in the linear branch) and one step
+    `rfm->apply(); rfm->applyToAll(ps)` from explicit `_offset` / queue contents; the
+    sine is not used by the linear branch *)
+Definition linear_rf (tanq sync bl2 xc d0 : Qc) (xsize : Z) : rfmap QcF :=
+  mkRF (K:=QcF) true tanq 0%Qc 0%Qc 0%Qc sync bl2 xsize xc d0 1%Qc 1%Qc (fun _ => 0%Qc).
+
+Definition dyn_step_list (m : rfmap QcF) (n : Z) (o : list Qc) (q : list (Qc * Qc)) (ps : list pos)
+  : (list Qc * list (Qc * Qc)) * list pos :=
+  let s : @st QcF unit := mkSt (K:=QcF) o q [] tt [] [] [] false in
+  let sp := dyn_track_step (fun x => x) unit (fun _ g => g) m n gen_dyn_calckick_args gen_dyn_apply (s, ps) in
+  ((offs (fst sp), queue (fst sp)), snd sp).
+
+(** loading and recording through the generated pieces, for the driver *)
+Definition gen_load_list (n : Z) (amin0 adelta0 amin1 adelta1 : Qc) (cs : list (Qc * Qc)) : list xpos :=
+  map (fun c => gen_load n amin0 adelta0 amin1 adelta1 (fst c) (snd c)) cs.
+Definition gen_append_list (ax0 ax1 : list Qc) (ps : list pos) : list (Qc * Qc) :=
+  map (gen_append (fun a => if a =? 0 then getQ ax0 else getQ ax1)) ps.
